@@ -298,6 +298,17 @@ def source_tie_sym(ck):
     return ok, info
 
 
+_W = {}
+
+
+def _impl_worker(job):
+    num, kind, x0, x, off = job
+    try:
+        return check_impl(_W["sgs"][num], kind, x0, x, off, *_W["fns"])
+    except Exception as e:  # noqa: BLE001
+        return "raised %r" % (e,), None
+
+
 def run(ck):
     import diffpy.structure.spacegroups as sgs
     from diffpy.structure.symmetryutilities import GeneratorSite, expandPosition
@@ -351,7 +362,11 @@ def run(ck):
     distinct = set()
     nfail = 0
     kinds = {}
-    for c in cases:
+    # the implementation-side oracle of every case, in worker processes (one family = the settings of one table number)
+    _W["sgs"] = bynum
+    _W["fns"] = (expandPosition, GeneratorSite)
+    impl = common.parallel_families(_impl_worker, [(c[0].number, c[1], c[2], c[3], c[4]) for c in cases], lambda j: j[0] % 1000, ck.notes)
+    for c, (prob, summ) in zip(cases, impl):
         sg, kind, x0, x, off, st = c
         ck.coverage["evaluations"] += 1
         kinds[kind] = kinds.get(kind, 0) + 1
@@ -360,10 +375,6 @@ def run(ck):
         key = "expand:%s:%s" % (sg.number, kind)
         repl = {"kind": "input", "setting": sg.number, "variant": kind, "xyz": [str(v) for v in x],
                 "special_site": [str(v) for v in x0], "sgoffset": [str(v) for v in off]}
-        try:
-            prob, summ = check_impl(sg, kind, x0, x, off, expandPosition, GeneratorSite)
-        except Exception as e:
-            prob, summ = "raised %r" % (e,), None
         if prob:
             nfail += 1
             ck.fail(key, "expandPosition(%s #%s, %s) %s" % (sg.short_name, sg.number, [float(v) for v in x], prob), dict(repl, detail=prob))
